@@ -8,7 +8,24 @@ use ark_poly::{
     EvaluationDomain, Evaluations, GeneralEvaluationDomain, MixedRadixEvaluationDomain,
     Radix2EvaluationDomain,
 };
+use ark_serialize::{CanonicalDeserialize, CanonicalSerialize, Compress, Validate};
 use arkharness::util::*;
+
+fn hexb(b: &[u8]) -> String {
+    if b.is_empty() { return "_".into(); }
+    b.iter().map(|x| format!("{:02x}", x)).collect()
+}
+
+/// `rand::RngCore` over the harness' SplitMix64 (for `sample_element_outside_domain`): seeded, reproducible
+struct SeedRng(Rng);
+impl ark_std::rand::RngCore for SeedRng {
+    fn next_u32(&mut self) -> u32 { self.0.next() as u32 }
+    fn next_u64(&mut self) -> u64 { self.0.next() }
+    fn fill_bytes(&mut self, dest: &mut [u8]) {
+        for c in dest.chunks_mut(8) { let w = self.0.next().to_le_bytes(); let l = c.len(); c.copy_from_slice(&w[..l]); }
+    }
+    fn try_fill_bytes(&mut self, dest: &mut [u8]) -> Result<(), ark_std::rand::Error> { self.fill_bytes(dest); Ok(()) }
+}
 
 // ---------------------------------------------------------------- toy mixed-radix fields
 macro_rules! toy {
@@ -364,6 +381,281 @@ fn kind_ops<F: FftField + PrimeField, D: Dom<F>>(id: &str, caps: &Caps, thorough
     }
 }
 
+
+// ---------------------------------------------------------------- additions: trait getters / defaults,
+// in-place transforms, degree-aware threshold, `Evaluations` API (every kind; `g` = both variants of
+// `GeneralEvaluationDomain`: radix-2 sizes and, on fields with a small subgroup, mixed-radix sizes)
+fn extra_ops<F: FftField + PrimeField, D: Dom<F>>(id: &str, caps: &Caps, thorough: bool, rng: &mut Rng, out: &mut Out) {
+    let has_small = F::SMALL_SUBGROUP_BASE.is_some();
+    if D::K == "m" && !has_small { return; }
+    let general = D::K == "g";
+    let big = F::MODULUS_BIT_SIZE > 128;
+    let q = !thorough; // quick tier: slim selection
+    // quick tier: kinds r and m (the same trait-default code, other instantiation) on a few fields only;
+    // kind g (both `GeneralEvaluationDomain` variants) on every field
+    if q && !general && !["t13", "t257", "m109", "m2593", "bls381fr", "bn384fq"].contains(&id) { return; }
+    let tiny = F::MODULUS_BIT_SIZE <= 4 || id == "m109";
+    let cap = if caps.light { 8 } else if thorough { 64 } else if big { 16 } else { 64 };
+    let all: Vec<usize> = family::<F>(cap.max(1024)).into_iter().filter(|&m| D::new(m).map(|d| d.size() == m).unwrap_or(false)).collect();
+    let mut sizes: Vec<usize> = all.iter().copied().filter(|&m| m <= cap).collect();
+    if q && sizes.len() > 5 {
+        // quick tier: sizes 1, 2, the next one, one in the middle, the largest
+        let n = sizes.len();
+        sizes = vec![sizes[0], sizes[1], sizes[2], sizes[n / 2 + 1], sizes[n - 1]];
+        sizes.dedup();
+    }
+    // ---- new_coset (trait default): sizes that exist, sizes that are rounded up, sizes that fail; offset 0
+    let mut ns: Vec<usize> = (0..=5).collect();
+    for &m in &sizes { ns.extend_from_slice(&[m, m + 1]); }
+    ns.push(1usize << (F::TWO_ADICITY.min(40) + 1));
+    ns.push(1usize << 63);
+    ns.sort(); ns.dedup();
+    for (ni, &n) in ns.iter().enumerate() {
+        for (oi, off) in [F::zero(), F::one(), rnz(rng), F::GENERATOR].into_iter().enumerate() {
+            if q && n > 2 && oi != ni % 4 { continue; }
+            out.line(&format!("C07 newcoset {} {} {:x} {}", id, D::K, n, h(&off)), &guarded(|| opt_dom::<F, D>(D::new_coset(n, off))));
+        }
+    }
+    for (si, &m) in sizes.iter().enumerate() {
+        let d = D::new(m).unwrap();
+        let full = thorough || (m <= 2 && tiny);
+        let offs = [F::one(), F::GENERATOR, rnz(rng)];
+        for (oi, &off) in offs.iter().enumerate() {
+            if !full && oi == 2 { continue; }
+            let first = oi == 0;
+            let cd = D::new_coset(m, off).unwrap();
+            let pfx = format!("{} {} {:x} {}", id, D::K, m, h(&off));
+            // ---- the nine getters, through the trait
+            out.line(&format!("C07 getters {}", pfx), &guarded(|| {
+                let tag = cd.show().split(' ').next().unwrap().to_string();
+                format!("{} {:x} {:x} {} {} {} {} {} {} {}", tag, cd.size(), cd.log_size_of_group(), h(&cd.size_as_field_element()), h(&cd.size_inv()),
+                    h(&cd.group_gen()), h(&cd.group_gen_inv()), h(&cd.coset_offset()), h(&cd.coset_offset_inv()), h(&cd.coset_offset_pow_size()))
+            }));
+            // ---- vanishing polynomial / Lagrange coefficients through the `GeneralEvaluationDomain` dispatch
+            if general && m <= caps.point_max.max(8) && !caps.light {
+                out.line(&format!("C07 vanish {}", pfx), &guarded(|| {
+                    let z = cd.vanishing_polynomial();
+                    let v: Vec<String> = z.iter().map(|(i, c)| format!("{:x}:{}", i, h(c))).collect();
+                    if v.is_empty() { "_".into() } else { v.join(",") }
+                }));
+                let pts = if full { points::<F, D>(&d, &cd, rng) }
+                    else { let mut t = vec![F::zero(), F::one(), cd.element(0), cd.element(m - 1), cd.element(m / 2), d.element(1), rnd(rng)];
+                           let mut seen: Vec<String> = Vec::new();
+                           t.retain(|x| { let s = h(x); if seen.contains(&s) { false } else { seen.push(s); true } }); t };
+                for tau in pts {
+                    out.line(&format!("C07 vanishat {} {}", pfx, h(&tau)), &guarded(|| h(&cd.evaluate_vanishing_polynomial(tau))));
+                    out.line(&format!("C07 lagrange {} {}", pfx, h(&tau)), &guarded(|| hl(&cd.evaluate_all_lagrange_coefficients(tau))));
+                }
+            }
+            // ---- fft_in_place / ifft_in_place called directly
+            let mut lens = if full { vec![0usize, 1, (m / 4).saturating_sub(1), m / 4, m / 4 + 1, m - 1, m, m + 1, 2 * m + 1] }
+                else if first { vec![0, m / 4, m / 4 + 1, m, m + 1] } else { vec![m / 4 + 1, m] };
+            lens.sort(); lens.dedup();
+            for &len in &lens {
+                let c = rvec::<F>(rng, len);
+                let long = len > m;
+                let cs = hl(&c);
+                out.line(&format!("C07 {} {} {}", if long { "fftiplong" } else { "fftip" }, pfx, cs), &guarded(|| { let mut v = c.clone(); v.reserve(3); cd.fft_in_place(&mut v); hl(&v) }));
+                out.line(&format!("C07 {} {} {}", if long { "ifftiplong" } else { "ifftip" }, pfx, cs), &guarded(|| { let mut v = c.clone(); cd.ifft_in_place(&mut v); hl(&v) }));
+            }
+            // ---- mul_polynomials_in_evaluation_domain
+            if oi < 2 {
+                let lab = if full { vec![(0usize, 0usize), (1, 1), (m, m), (m, m - 1), (m - 1, m), (m + 1, m + 1)] }
+                    else if first { vec![(0, 0), (m, m), (m, m - 1), (m + 1, m + 1)] } else { vec![(m, m)] };
+                for (la, lb) in lab {
+                    let (a, b) = (rvec::<F>(rng, la), rvec::<F>(rng, lb));
+                    out.line(&format!("C07 mulevals {} {} {}", pfx, hl(&a), hl(&b)), &guarded(|| hl(&cd.mul_polynomials_in_evaluation_domain(&a, &b))));
+                }
+                if m <= 64 {
+                    let mut lab = if full { vec![(0usize, 0usize), (0, 1), (1, 1), (m / 2, m / 2), (m / 2 + 1, m / 2), (1, m), (m, m), ((m + 1) / 2, m - (m + 1) / 2 + 1)] }
+                        else if first { vec![(0, 1), ((m + 1) / 2, m - (m + 1) / 2 + 1), (m / 2 + 1, m / 2 + 1), (m, m)] } else { vec![(m / 2, m / 2), (m / 2 + 1, m / 2), (m, 1)] };
+                    lab.sort(); lab.dedup();
+                    for (la, lb) in lab {
+                        let (a, b) = (rvec::<F>(rng, la), rvec::<F>(rng, lb));
+                        out.line(&format!("C07 mulpoly {} {} {}", pfx, hl(&a), hl(&b)), &guarded(|| {
+                            let (ea, eb) = (cd.fft(&a), cd.fft(&b));
+                            hl(&cd.ifft(&cd.mul_polynomials_in_evaluation_domain(&ea, &eb)))
+                        }));
+                    }
+                }
+            }
+            // ---- sample_element_outside_domain (seeded RNG; verdict only)
+            if m <= 16 || si + 1 == sizes.len() {
+                for _ in 0..(if full { 4 } else { 1 }) {
+                    let seed = rng.next();
+                    out.line(&format!("C07 sampleout {} {:x}", pfx, seed), &guarded(|| h(&cd.sample_element_outside_domain(&mut SeedRng(Rng::new(seed))))));
+                }
+            }
+            // ---- serialization of the domain and of `Evaluations` (hand-written for `GeneralEvaluationDomain`,
+            //      derived for the others): bytes, serialized_size, round trip; damaged encodings
+            if first || full {
+                for (mode, ms) in [(Compress::Yes, "c"), (Compress::No, "u")] {
+                    if !full && ((si % 2 == 0) != (ms == "c")) { continue; }
+                    out.line(&format!("C07 ser {} {}", pfx, ms), &guarded(|| {
+                        let mut bytes = Vec::new();
+                        cd.serialize_with_mode(&mut bytes, mode).unwrap();
+                        let back = D::deserialize_with_mode(&bytes[..], mode, Validate::Yes);
+                        format!("{} {:x} {}", hexb(&bytes), cd.serialized_size(mode), match back { Ok(x) => x.show(), Err(_) => "err".into() })
+                    }));
+                    let e = rvec::<F>(rng, if ms == "c" { m } else { m / 2 });
+                    let ev = Evaluations::from_vec_and_domain(e.clone(), cd);
+                    out.line(&format!("C07 evser {} {} {}", pfx, hl(&e), ms), &guarded(|| {
+                        let mut bytes = Vec::new();
+                        ev.serialize_with_mode(&mut bytes, mode).unwrap();
+                        let back = Evaluations::<F, D>::deserialize_with_mode(&bytes[..], mode, Validate::Yes);
+                        format!("{} {:x} {}", hexb(&bytes), ev.serialized_size(mode), match back { Ok(x) => format!("{} {}", hl(&x.evals), x.domain().show()), Err(_) => "err".into() })
+                    }));
+                }
+                let mut whats = vec!["trunc"];
+                if general { whats.push("v2"); whats.push("vff"); }
+                for what in whats {
+                    out.line(&format!("C07 serx {} {}", pfx, what), &guarded(|| {
+                        let mut bytes = Vec::new();
+                        cd.serialize_compressed(&mut bytes).unwrap();
+                        match what { "trunc" => { bytes.pop(); }, "v2" => bytes[0] = 2, _ => bytes[0] = 0xff }
+                        match D::deserialize_compressed(&bytes[..]) { Ok(x) => x.show(), Err(_) => "err".into() }
+                    }));
+                }
+            }
+            // ---- Evaluations: zero, domain(), Index, Mul<F>
+            out.line(&format!("C07 evzero {}", pfx), &guarded(|| hl(&Evaluations::<F, D>::zero(cd).evals)));
+            for len in [m, 0usize, m + 2] {
+                if len != m && !(full && first) { continue; }
+                let e = rvec::<F>(rng, len);
+                let es = hl(&e);
+                let ev = Evaluations::from_vec_and_domain(e.clone(), cd);
+                out.line(&format!("C07 evdom {} {}", pfx, es), &guarded(|| ev.domain().show()));
+                let mut is = if full { vec![0usize, len / 2, len.saturating_sub(1), len, len + 1, usize::MAX] } else if first { vec![0, len.saturating_sub(1), len] } else { vec![len / 2, usize::MAX] };
+                is.sort(); is.dedup();
+                for i in is {
+                    out.line(&format!("C07 evidx {} {} {:x}", pfx, es, i), &guarded(|| h(&ev[i])));
+                }
+                for (ci, c) in [F::zero(), F::one(), rnd(rng)].into_iter().enumerate() {
+                    if !full && ci == oi { continue; }
+                    out.line(&format!("C07 evscale {} {} {}", pfx, es, h(&c)), &guarded(|| hl(&(&ev * c).evals)));
+                }
+            }
+            // ---- Evaluations ⊕ Evaluations, ⊕=, same domain and different domains.
+            //      case = (size and offset of the second domain, a, b, all eight operators?)
+            let mut cases: Vec<(usize, F, Vec<F>, Vec<F>, bool)> = Vec::new();
+            let z = vec![F::zero(); m];
+            let a = rvec::<F>(rng, m);
+            let mut b = rvec::<F>(rng, m);
+            cases.push((m, off, a.clone(), b.clone(), true));
+            if full {
+                cases.push((m, off, a.clone(), a.clone(), true));
+                cases.push((m, off, a.clone(), z.clone(), true));
+                cases.push((m, off, z.clone(), b.clone(), true));
+                cases.push((m, off, Vec::new(), Vec::new(), true));
+            }
+            b[m - 1] = F::zero(); b[0] = F::zero();   // zero divisors
+            cases.push((m, off, a.clone(), b.clone(), full));
+            if first {
+                // unequal lengths (zip stops at the shorter)
+                cases.push((m, off, a.clone(), b[..m - 1].to_vec(), full));
+                cases.push((m, off, a[..m - 1].to_vec(), b.clone(), full));
+                if full { cases.push((m, off, a.clone(), rvec::<F>(rng, m + 1), full)); }
+            }
+            // different domains: other offset, same coset under another representative, other size
+            cases.push((m, off * F::GENERATOR, a.clone(), b.clone(), full));
+            if m > 1 && (full || !first) { cases.push((m, off * d.group_gen(), a.clone(), b.clone(), full)); }
+            if oi < 2 {
+                for &m2 in all.iter().filter(|&&m2| m2 != m && (m2 == 2 * m || m2 * 2 == m || m2 == 3 * m || m2 * 3 == m || (m2 > m && m2 < 2 * m))).take(if full { 2 } else { 1 }) {
+                    if full { cases.push((m2, off, a.clone(), rvec::<F>(rng, m2), full)); }
+                    cases.push((m2, off, a.clone(), b.clone(), full));
+                }
+            }
+            for (ci, (n2, off2, a, b, every)) in cases.iter().enumerate() {
+                let other = match D::new_coset(*n2, *off2) { Some(x) => x, None => continue };
+                let args = format!("{} {:x} {} {} {}", pfx, n2, h(off2), hl(a), hl(b));
+                let ea = Evaluations::from_vec_and_domain(a.clone(), cd);
+                let eb = Evaluations::from_vec_and_domain(b.clone(), other);
+                let r = (ci + oi + si) % 4;
+                macro_rules! bin {
+                    ($name:expr, $e:expr) => { out.line(&format!("C07 {} {}", $name, args), &guarded(|| hl(&$e.evals))); };
+                }
+                macro_rules! asg {
+                    ($name:expr, $op:tt) => { out.line(&format!("C07 {} {}", $name, args), &guarded(|| { let mut x = ea.clone(); x $op &eb; hl(&x.evals) })); };
+                }
+                if *every || r == 0 { bin!("evadd", &ea + &eb); }
+                if *every || r == 1 { bin!("evsub", &ea - &eb); }
+                if *every || r == 2 { bin!("evmul", &ea * &eb); }
+                if *every || r == 3 { bin!("evdiv", &ea / &eb); }
+                if *every || r == 3 { asg!("evaddas", +=); }
+                if *every || r == 2 { asg!("evsubas", -=); }
+                if *every || r == 1 { asg!("evmulas", *=); }
+                if *every || r == 0 { asg!("evdivas", /=); }
+            }
+        }
+    }
+    // ---- degree-aware FFT threshold (radix-2 code path: kinds r and g): input lengths on both sides of
+    //      `len·4 ≤ size`, non-power-of-two lengths, offset 1 and a proper coset; through fft, fft_in_place,
+    //      and back through `Evaluations::interpolate` / `interpolate_by_ref`
+    if D::K != "m" && !caps.light {
+        let tcap = if thorough { 4096 } else if big { 64 } else { 1024 };
+        let mut m = 4usize;
+        while m <= tcap && m <= caps.edge_max.max(64) {
+            if let Some(d) = D::new(m) {
+                if d.size() == m && d.show().starts_with('r') {
+                    let mut lens = if q { vec![m / 4 - 1, m / 4, m / 4 + 1, m / 8 + 1, m / 4 - m / 16] }
+                        else { vec![m / 4 - 1, m / 4, m / 4 + 1, m / 8, m / 8 + 1, (m / 8).saturating_sub(1), 3, m / 4 - m / 16] };
+                    lens.retain(|&l| l <= m); lens.sort(); lens.dedup();
+                    for off in [F::one(), F::GENERATOR] {
+                        let cd = d.get_coset(off).unwrap();
+                        let pfx = format!("{} {} {:x} {}", id, D::K, m, h(&off));
+                        for &len in &lens {
+                            if m >= 256 && q && ![m / 4, m / 4 + 1, m / 8 + 1].contains(&len) { continue; }
+                            let c = rvec::<F>(rng, len);
+                            let cs = hl(&c);
+                            out.line(&format!("C07 fft {} {}", pfx, cs), &guarded(|| hl(&cd.fft(&c))));
+                            out.line(&format!("C07 fftip {} {}", pfx, cs), &guarded(|| { let mut v = c.clone(); cd.fft_in_place(&mut v); hl(&v) }));
+                            if m <= 64 {
+                                // round trip through the evaluations: interpolate(fft(c)) = c (trimmed)
+                                let ev = cd.fft(&c);
+                                let r = guarded(|| {
+                                    let e = Evaluations::from_vec_and_domain(ev.clone(), cd);
+                                    let p = if len % 2 == 0 { e.interpolate_by_ref() } else { e.interpolate() };
+                                    hl(&p.coeffs)
+                                });
+                                out.line(&format!("C07 interp {} {}", pfx, hl(&ev)), &r);
+                            }
+                        }
+                    }
+                }
+            }
+            m *= if m >= 64 && q { 4 } else { 2 };
+        }
+    }
+    // ---- reindex_by_subdomain / filter polynomials through the `GeneralEvaluationDomain` instantiation
+    //      (trait defaults; filter polynomials stay outside C07's statement: verdict `note:`)
+    if general && !caps.light {
+        let small: Vec<usize> = all.iter().copied().filter(|&m| m <= if q { 6 } else { 12 }).collect();
+        for &n in &small {
+            let d = D::new(n).unwrap();
+            for &m in small.iter().filter(|&&m| m <= n && n % m == 0) {
+                let s = D::new(m).unwrap();
+                let mut is = vec![0usize, 1, m.saturating_sub(1), m, n - 1, n];
+                is.sort(); is.dedup();
+                for i in is {
+                    out.line(&format!("C07 reindex {} {} {:x} {:x} {:x}", id, D::K, n, m, i), &guarded(|| format!("{:x}", d.reindex_by_subdomain(s, i))));
+                }
+                for doff in [F::one(), F::GENERATOR] {
+                    if q && big && doff != F::one() { continue; }
+                    let cd = d.get_coset(doff).unwrap();
+                    for soff in [doff, doff * d.group_gen()] {
+                        let cs = s.get_coset(soff).unwrap();
+                        let pfx = format!("{} {} {:x} {} {:x} {}", id, D::K, n, h(&doff), m, h(&soff));
+                        out.line(&format!("C07 filter {}", pfx), &guarded(|| hl(&cd.filter_polynomial(&cs).coeffs)));
+                        for tau in [cd.element(1), cs.element(m - 1), rnd(rng)] {
+                            out.line(&format!("C07 filterat {} {}", pfx, h(&tau)), &guarded(|| h(&cd.evaluate_filter_polynomial(&cs, tau))));
+                        }
+                    }
+                }
+            }
+        }
+    }
+}
+
 fn field_ops<F: FftField + PrimeField>(id: &str, caps: Caps, thorough: bool, rng: &mut Rng, out: &mut Out, only: &Option<String>) {
     if let Some(o) = only { if o != id { return; } }
     let opt = |x: Option<String>| x.unwrap_or("-".into());
@@ -399,6 +691,9 @@ fn field_ops<F: FftField + PrimeField>(id: &str, caps: Caps, thorough: bool, rng
     kind_ops::<F, Radix2EvaluationDomain<F>>(id, &caps, thorough, rng, out);
     kind_ops::<F, MixedRadixEvaluationDomain<F>>(id, &caps, thorough, rng, out);
     kind_ops::<F, GeneralEvaluationDomain<F>>(id, &caps, thorough, rng, out);
+    extra_ops::<F, Radix2EvaluationDomain<F>>(id, &caps, thorough, rng, out);
+    extra_ops::<F, MixedRadixEvaluationDomain<F>>(id, &caps, thorough, rng, out);
+    extra_ops::<F, GeneralEvaluationDomain<F>>(id, &caps, thorough, rng, out);
 }
 
 fn bitrev_ops(rng: &mut Rng, out: &mut Out) {
